@@ -23,7 +23,7 @@ def bf_cfg(rng):
 
 class C03(Prop):
     id = 'C03'
-    rule_added = '20% of the cases are written as modular specifications (named sub-specifications referenced from several future depths). 12% under an interface-aware semantics (formulas outside the D-past-over-future precondition). 12% under a sampling period {500 ms, 250 ms, 2 s, 4 s}; 10% a one-step delay above a look-ahead operand next to a sibling with look-ahead; every update is compared, also after one the open finding explains.'
+    rule_added = '20% of the cases are written as modular specifications (named sub-specifications referenced from several future depths). 12% under an interface-aware semantics. 12% under a sampling period {500 ms, 250 ms, 2 s, 4 s} with default unit s, ms or us (half of them configured period first, unit second); 10% a one-step delay above a look-ahead operand next to a sibling with look-ahead; every update is compared, also after one the open finding explains.'
     rule = ('random bounded-future STL formulas (bounded eventually/always/until/unless, next/s_next, mixed with '
             'all past operators, Boolean, arithmetic; horizon h<=12; 15% future-free) x traces of h+1..h+14 samples: '
             'parse(); pastify(); update #i for every i>=h is compared with evaluate() of a fresh *un-pastified* offline '
@@ -68,6 +68,7 @@ class C03(Prop):
         elif rng.random() < 0.12:
             # another sampling period (default unit s): one sample is no longer one default unit
             case['period'] = rng.choice([[500, 'ms'], [2, 's'], [250, 'ms'], [4, 's']])
+            case['punit'] = rng.choice(['s', 's', 'ms', 'ms', 'us'])        # default unit the bounds are written in
         elif rng.random() < 0.12:
             from rtverif import pastmodel
             from rtverif.props.c06 import SEMS
@@ -108,8 +109,9 @@ class C03(Prop):
             from rtverif.props.c08 import Speller, U
             per = case['period']
             P = per[0] * U[per[1]]
-            text = lang.to_text(f, ivl_printer=Speller(random.Random(0), P, 's', 'default').ivl)
-            times = [float(Fr(i * P, U['s'])) for i in range(n)]
+            pu = case.get('punit', 's')
+            text = lang.to_text(f, ivl_printer=Speller(random.Random(0), P, pu, 'default').ivl)
+            times = [float(Fr(i * P, U[pu])) for i in range(n)]
             v.info['class:sampling-period'] = 1
         rel = rel_for(f)
         v.nontrivial = h >= 1 and n > h + 1
@@ -130,6 +132,8 @@ class C03(Prop):
         kind = case.get('online_kind', 'dt')
         if case.get('period'):
             sdx = dict(sdx, period=(case['period'][0], case['period'][1], 0.1))
+            if case.get('punit', 's') != 's':
+                sdx['unit'] = case['punit']
         sd = dict({'text': text, 'vars': names}, **sdx)
         if case.get('modular'):
             from rtverif.props.c09 import modular_sd
